@@ -323,3 +323,81 @@ CHECKS = [
 from vgv import worldedit  # noqa: E402
 
 CHECKS.append(worldedit.make_check('C10'))
+
+
+# ------------------------------------------------------------------ one agent object carried through a very wide world, actuating everywhere
+
+SWEEP_LENGTHS = {'quick': [1100], 'thorough': [1100, 4100, 65600]}
+
+
+def enum_pose_sweep(tier, shard, nshards):
+    i = 0
+    for L in SWEEP_LENGTHS[tier]:
+        for hd in HEADINGS:
+            for tall in (False, True):
+                i += 1
+                if i % nshards == shard:
+                    yield {'L': L, 'heading': hd, 'tall': tall}
+
+
+def oracle_pose_sweep(case, ctx):
+    """a world of 2 x L (or L x 2) cells in which every third cell is a closed door; one agent object is put, in place, on many cells in turn
+    (the beginning of both rows, around every power of two, the far end, evenly spaced ones) and actuates: exactly the door it faces
+    opens (or stays open), every time.  Whatever is remembered about the agent's pose must follow the pose, however far out."""
+    from gym_gridverse.geometry import Position
+    from gym_gridverse.grid_object import Door
+    L, hd = case['L'], case['heading']
+    h, w = (L, 2) if case['tall'] else (2, L)
+    long_ = max(h, w)
+    is_door = lambda y, x: (x + 2 * y) % 3 == 0  # noqa: E731
+    s = objs.build_state({'grid': [['D:CLOSED:RED' if is_door(y, x) else 'F' for x in range(w)] for y in range(h)], 'agent': [0, 1, hd, '_']})
+    from gym_gridverse.envs.transition_functions import transition_function_registry as _REG
+    act = _REG['actuate_door']
+    A = objs.action('ACTUATE')
+    s.agent.orientation = objs.ori(hd)
+    ks = set(range(0, 40)) | set(range(long_ - 40, long_)) | set(range(0, long_, max(1, long_ // 400)))
+    p2 = 64
+    while p2 < long_:
+        ks |= set(range(max(0, p2 - 3), min(long_, p2 + 4)))
+        p2 *= 2
+    open_ = set()
+    prev = None
+    n = 0
+    order = [(short, k) for short in range(2) for k in sorted(ks)]
+    # then jumps (as through a telepod, or by the owner of the agent): from the beginning of the second row straight to the cell a power of
+    # two further along the first row, and back -- poses that differ in one high bit follow each other directly
+    p2 = 64
+    while p2 < long_:
+        for d_ in range(0, 6):
+            if p2 + d_ < long_:
+                order += [(1, d_), (0, p2 + d_), (1, d_ + 1), (0, p2 + d_)]
+        p2 *= 2
+    for (short, k) in order:
+        if True:
+            y, x = (k, short) if case['tall'] else (short, k)
+            if is_door(y, x) and (y, x) not in open_:
+                continue                                   # the agent does not stand on a closed door
+            s.agent.position = Position(y, x)
+            f = (y + M.FWD[hd][0], x + M.FWD[hd][1])
+            act(s, A)
+            n += 1
+            if 0 <= f[0] < h and 0 <= f[1] < w and is_door(*f):
+                open_.add(f)                               # (actuating opens; an open door stays open)
+            for q in [f] + ([prev] if prev else []):
+                if 0 <= q[0] < h and 0 <= q[1] < w and is_door(*q):
+                    real = s.grid[Position(*q)]
+                    if not isinstance(real, Door) or real.is_open != (q in open_):
+                        ctx.fail(f'{h}x{w} world: after ACTUATE from {(y, x)} heading {hd} the door at {q} is {"open" if getattr(real, "is_open", None) else "closed"}, '
+                                 f'expected {"open" if q in open_ else "closed"} (the faced cell is {f}, the previously faced one {prev})', {'kind': 'door_rule', 'aspect': 'pose_sweep'})
+            prev = f
+    real_open = {(y, x) for y in range(h) for x in range(w) if is_door(y, x) and s.grid[y, x].is_open}
+    if real_open != open_:
+        ctx.fail(f'{h}x{w} world: after {n} actuations the open doors differ from the faced ones: unexpectedly open {sorted(real_open - open_)[:4]}, unexpectedly closed {sorted(open_ - real_open)[:4]}',
+                 {'kind': 'door_rule', 'aspect': 'pose_sweep'})
+    ctx.ev.case(case, nt=True, classes=[f'length:{L}'])
+    ctx.ev.count('poses_swept', n)
+
+
+CHECKS.append(Check('pose_sweep', oracle_pose_sweep, enumerate=enum_pose_sweep, shards={'quick': 8, 'thorough': 16}, exhaustive=True,
+                    rule='a 2 x L / L x 2 world (L = 1100; thorough also 4100 and 65600) with a closed door on every third cell; one agent object put in place on the first and last 40 cells, around every power of two and on 400 evenly spaced cells of both rows x 4 headings, actuating each time: exactly the faced door changes',
+                    required=['length:1100']))
